@@ -2032,7 +2032,12 @@ func (self *Node) parseRaw(full bool) {
 		*self, e = parser.Parse()
 	}
 	if e != 0 {
-		*self = *newSyntaxError(parser.syntaxError(e))
+		if lock {
+			// keep the held mutex: blocked readers must still be released by it
+			self.assign(*newSyntaxError(parser.syntaxError(e)))
+		} else {
+			*self = *newSyntaxError(parser.syntaxError(e))
+		}
 	}
 }
 
